@@ -167,11 +167,19 @@ class Cmp:
         unmatched = list(ws)
         for x, ps, k in expected:
             found = None
+            cands = []
             for w in unmatched:
                 wp = [p for p in w["params"] if not p["is_this"]]
                 if [p["name"] for p in wp] == [p["name"] for p in ps]:
+                    cands.append((w, wp))
+            # parameter names identify the variant; when two overloads happen to use the same names, the one whose
+            # types agree is the counterpart (a type mismatch is then still reported against the only candidate)
+            for w, wp in cands:
+                if all(db.tname(dp["type"]) in expect_type(mp["type"], "param") for mp, dp in zip(ps, wp)):
                     found = w
                     break
+            if found is None and cands:
+                found = cands[0][0]
             self.fact()
             if found is None:
                 self.bad(f"variant-missing:{x['kind']},omitted={k}", name=qname, params=[p["name"] for p in ps],
@@ -296,6 +304,17 @@ class Cmp:
             if t["true_name"] != c["qname"]:
                 self.bad("class-true-name", name=c["qname"], got=t["true_name"])
             self.want_comment(c.get("doc"), "type:" + c["qname"], t["comment"], "class")
+            # nesting
+            self.fact(2)
+            if bool(t["is_nested"]) != bool(c.get("outer")):
+                self.bad("nesting:class-flag:depth=%d" % c.get("depth", 0), name=c["qname"], got=t["is_nested"])
+            elif c.get("outer"):
+                o = db.types.get(t["outer_class"])
+                self.res.features.add("class:nested:depth=%d" % c["depth"])
+                if o is None or o["scoped_name"] != c["outer"]:
+                    self.bad("nesting:class-outer:depth=%d" % c["depth"], name=c["qname"], got=o and o["scoped_name"])
+                elif t["index"] not in o["nested_types"]:
+                    self.bad("nesting:outer-does-not-list:depth=%d" % c["depth"], name=c["qname"])
             got = sorted(db.tname(d["base"]) or "?" for d in t["derivations"])
             self.fact()
             if got != sorted(b["qname"] for b in c["bases"]):
@@ -357,6 +376,28 @@ class Cmp:
                 if (s["scoped_name"] if s else None) != pr["setter"]:
                     self.bad("property-setter:" + ("expected" if pr["setter"] else "unexpected"), name=pr["qname"],
                              got=s and s["scoped_name"])
+            for sp in c.get("seqprops", []):
+                e = next((e for e in db.elements.values() if e["scoped_name"] == sp["qname"]), None)
+                self.fact()
+                nacc = sum(1 for k in ("num", "get", "set", "remove", "insert") if k in sp)
+                if e is None:
+                    self.bad("seq-property-missing:accessors=%d" % nacc, name=sp["qname"])
+                    continue
+                self.res.features.add("seq_property:accessors=%d" % nacc)
+                self.want_comment(sp.get("doc"), "element:" + sp["qname"], e["comment"], "seq-property")
+                if sp.get("doc") is None:
+                    self.prop_getters["element:" + sp["qname"]] = "function:" + sp["get"]
+                self.fact()
+                if not e["is_sequence"]:
+                    self.bad("seq-property-not-sequence", name=sp["qname"])
+                for role, has, fld in (("num", None, "length_function"), ("get", "has_getter", "getter"),
+                                       ("set", "has_setter", "setter"), ("remove", "has_del_function", "del_function"),
+                                       ("insert", "has_insert_function", "insert_function")):
+                    self.fact()
+                    f = db.functions.get(e[fld]) if (has is None or e[has]) and e[fld] else None
+                    got = f["scoped_name"] if f else None
+                    if got != sp.get(role):
+                        self.bad("seq-property-accessor:" + role, name=sp["qname"], got=got, expected=sp.get(role))
             for sq in c["seqs"]:
                 s = next((s for s in db.make_seqs.values() if s["scoped_name"] == sq["qname"]), None)
                 self.fact()
@@ -388,7 +429,7 @@ def run_case(ctx, case):
         import json
         model = json.loads(case["files"]["liba.model.json"])
     else:
-        lib = libgen.generate(random.Random(case["libseed"]), "liba", size=case.get("size", 1.0))
+        lib = libgen.generate(random.Random(case["libseed"]), "liba", size=case.get("size", 1.0), ext=True)
         lib.write(d)
         model = lib.model
     cfgname = case["cfg"]
